@@ -20,6 +20,7 @@ R3.11 wire keys / discriminator values are emitted as literals that evaluate to 
 R3.8  nullability written as a type array is read from the document node at every sibling site (never from IRSchema.type, a string)
 R3.5  recursion over field types: every field of every dataclass gets its nested types registered (no skip)
 R3.17 the dataclass hook factories resolve nested forward references before cattrs sees the class (tree-shaped models round-trip)        [= R16.13]
+R3.20 the values of an `enum` keyword reach the IR as the document lists them: nothing but `null` may be filtered out (no truthiness filter: `""`, `0`, `false` are values)
 R3.19 a JSON scalar of a primitive union is decoded as the variant of its own type, not coerced into an earlier one                          [= R14.15]
 R3.18 a discriminator without explicit mapping still selects the variant (implicit mapping)                                                  [= R14.14]
 """
@@ -192,6 +193,7 @@ def run(repo: Repo, rep: Report, tier: str) -> None:
                       f"{only_b[:2]}): e.g. the optionality of a single-variant composition is kept by one spelling and lost by the other", a.loc())
 
     cv.rule_string_formats(repo, rep, "R3.10")
+    rule_enum_values_unfiltered(repo, rep, "R3.20")
     # ---------------------------------------------------------------- R3.9 every discriminator value the spec maps is in the generated dispatch table
     from rules._reuse import reuse as _reuse39
 
@@ -289,3 +291,89 @@ def rule_free_form_object_keeps_content(repo: Repo, rep, rule: str = "R3.16") ->
                       f"for an object schema without properties the wrapper is {'not ' if not outcomes.get(wrong[0]) else ''}chosen when additionalProperties is {wrong[0]} "
                       f"({outcomes}): `metadata: {{type: object}}` becomes a dataclass without fields, structuring accepts any object for it and drops every key - "
                       "a conforming document comes back with `{}` in its place", fn.loc(rets[0]))
+
+
+# ------------------------------------------------------------------------------------------------ R3.20 enum values are not filtered by truthiness
+_R320_EXAMPLE = '''
+def parse(schema_node):
+    values = schema_node.get("enum")
+    if values and nullable:
+        values = list(filter(None, values))
+    return IRSchema(enum=values)
+'''
+
+
+def _enum_value_filters(fn_node: ast.AST):
+    """(lossy filters, number of `enum=` constructor arguments looked at): a definition of the value handed to `IRSchema(enum=...)` that drops
+    list elements by truthiness (`filter(None, xs)`, `[v for v in xs if v]`, `if not v: continue`) or cuts the list (slice)"""
+    from sa.match import Locals as _L
+
+    L = _L(fn_node)
+    out = []
+    n = 0
+
+    def lossy(e: ast.AST, depth: int = 0) -> Optional[ast.AST]:
+        if depth > 6:
+            return None
+        if isinstance(e, ast.Name):
+            for k, v, _ in L.defs.get(e.id, []):
+                if v is not None and k == "assign":
+                    r = lossy(v, depth + 1)
+                    if r is not None:
+                        return r
+            return None
+        for x in ast.walk(e):
+            if isinstance(x, ast.Call) and isinstance(x.func, ast.Name) and x.func.id == "filter" and x.args and isinstance(x.args[0], ast.Constant) and x.args[0].value is None:
+                return x
+            if isinstance(x, (ast.ListComp, ast.GeneratorExp, ast.SetComp)):
+                for g in x.generators:
+                    tv = {t.id for t in ast.walk(g.target) if isinstance(t, ast.Name)}
+                    for cond in g.ifs:
+                        c = cond
+                        while isinstance(c, ast.UnaryOp) and isinstance(c.op, ast.Not):
+                            c = c.operand
+                        if isinstance(c, ast.Name) and c.id in tv:
+                            return x
+            if isinstance(x, ast.Subscript) and isinstance(x.slice, ast.Slice):
+                return x
+        for x in ast.walk(e):
+            if isinstance(x, ast.Name) and x is not e:
+                r = lossy(x, depth + 1)
+                if r is not None:
+                    return r
+        return None
+
+    for c in ast.walk(fn_node):
+        if isinstance(c, ast.Call) and (dotted(c.func) or "").split(".")[-1] == "IRSchema":
+            for k in c.keywords:
+                if k.arg == "enum" and not (isinstance(k.value, ast.Constant) and k.value.value is None):
+                    n += 1
+                    r = lossy(k.value)
+                    if r is not None:
+                        out.append((c, r))
+    return out, n
+
+
+def rule_enum_values_unfiltered(repo: Repo, rep, rule: str = "R3.20") -> None:
+    """An enum value that does not reach `IRSchema.enum` is not a member of the generated Enum class: a conforming document carrying it cannot
+    be structured (`'' is not a valid SortOrder`).  `null` is the only entry that may be taken out (it is what `nullable` says); a filter by
+    truthiness also takes out `""`, `0`, `0.0` and `false`."""
+    hz, n = _enum_value_filters(ast.parse(_R320_EXAMPLE).body[0])
+    rep.require(len(hz) == 1 and n == 1, f"{rule}: the built-in positive example is no longer recognised - the rule is broken")
+    total = 0
+    for fq in ("core.parsing.schema_parser:_parse_schema", "core.parsing.schema_parser:_parse_properties"):
+        try:
+            fn = repo.func(fq)
+        except AnalysisError:
+            continue
+        hz, n = _enum_value_filters(fn.node)
+        total += n
+        sub = f"{fn.module.relpath}:{fn.qualname} values handed to IRSchema(enum=...)"
+        if hz:
+            c, r = hz[0]
+            rep.violation(rule, sub, f"{fn.fq}|enum-values-filtered-by-truthiness",
+                          f"`{norm(r)[:70]}` removes every falsy entry of the document's enum list, not only null: `\"\"`, `0` and `false` are no members of the generated Enum and a "
+                          "conforming document that carries one of them cannot be structured", fn.loc(r))
+        elif n:
+            rep.ok(rule, sub, f"{n} constructor argument(s): the document's list, unfiltered", fn.loc())
+    rep.require(total >= 1, f"{rule}: no `IRSchema(enum=...)` argument found in the schema parser (anchor)")
